@@ -155,8 +155,9 @@ func (l *Lexer) readNumber() (string, token.Type) {
 		l.ReadChar()
 	}
 
-	// Check if it's a decimal number
-	if l.CurrentChar == '.' && isDigit(l.PeekChar()) {
+	// Check if it's a decimal number (`1.5`, and `1.e3`: a dot directly in front of an exponent
+	// belongs to the number, it is not a member access)
+	if l.CurrentChar == '.' && (isDigit(l.PeekChar()) || l.exponentAt(l.readPosition)) {
 		tokenType = token.FLOAT
 		l.ReadChar() // consume the '.'
 		for isDigit(l.CurrentChar) {
@@ -186,6 +187,19 @@ func (l *Lexer) readNumber() (string, token.Type) {
 	}
 
 	return l.input[position:l.position], tokenType
+}
+
+// exponentAt reports whether a complete exponent part (e or E, an optional sign, a digit) starts
+// at the given offset of the input.
+func (l *Lexer) exponentAt(pos int) bool {
+	if pos >= len(l.input) || (l.input[pos] != 'e' && l.input[pos] != 'E') {
+		return false
+	}
+	pos++
+	if pos < len(l.input) && (l.input[pos] == '+' || l.input[pos] == '-') {
+		pos++
+	}
+	return pos < len(l.input) && isDigit(l.input[pos])
 }
 
 // readHexNumber reads a hexadecimal number (0x or 0X followed by hex digits)
